@@ -1850,7 +1850,8 @@ class Tensor:
             root = func(root_copy, **kwargs)
         else:
             root = root_copy
-            funcBelow(root, depth=depth - 1, **kwargs)
+            root.updatePayloads(lambda i, c, p: Fiber() if p.isEmpty() else func(p, **kwargs),
+                                depth=depth - 1)
 
         #
         # Create Tensor from rank_ids and root fiber
